@@ -13,7 +13,7 @@ Variable ww : N.
 Variable zb : list (N * N).
 
 (* the Reader the engines run with: width w = 2^ww, GarbageHandling.Stop, the given zero ranges *)
-Definition cfg : config := mkconfig (MachineSpec.w ww) src_garbage_stop zb.
+Definition cfg : config := mkconfig (MachineSpec.w ww) src_garbage_stop zb (fun _ => None).
 Definition callS : nat -> fname -> list value -> world -> eres := call_at cfg src_program.
 (* calls made by a loop body nest at most 5 deep (loop -> _handle_input -> write_bit -> _get_memory_word -> _new_garbage_val) *)
 Definition call : fname -> list value -> world -> eres := callS 8.
